@@ -4,7 +4,9 @@ from . import treeshared as TS
 
 PROP = "C05"
 RULE = ("tree bandits T_HOO/HCT/VHCT stand-alone (80%) and as base learners inside POO/GPO/PCT/VPCT (20%), all "
-        "partitions, d=1..3, n up to 600 (quick) / 1500 (thorough), (nu, rho, c, delta, bound) log-uniform in the "
+        "partitions, d=1..3, n up to 600 (quick) / 1500 (thorough), plus 4 (48) long-horizon HCT/VHCT runs of 16 500 - 33 500 "
+        "rounds that cross 2^14 / 2^15 (whole-tree walks around powers of two and every 64th round, pulled-cell and "
+        "expansion checks every round), (nu, rho, c, delta, bound) log-uniform in the "
         "documented ranges 19 reward families incl. ties and 1e6+noise; after EVERY round "
         "every U is compared with the published formula recomputed from the ledger, every non-root B with the "
         "recursion, and the pulled cell's root path with the greedy/threshold rule; non-trivial = >= 50 rounds, tree "
@@ -24,6 +26,8 @@ WALL = {"quick": 1500, "thorough": 5 * 3600}
 def gen_cases(rng, tier, count=None):
     count = count or (220 if tier == "quick" else 4000)
     out = []
+    for i in range(4 if tier == "quick" else 48):
+        out.append(TS.long_case(rng, tier, ["HCT", "VHCT"][i % 2]))
     for i in range(count):
         if i % 5 == 4:
             out.append(TS.wrapper_case(rng, tier))
